@@ -451,7 +451,10 @@ class FnView:
         if "v" in c:
             d = self.b.const_def(c, "def")
             if d is not None:
-                return ("int", int(c["v"]), d.name)
+                from . import inline
+                kc = inline.known_consts()
+                if kc is None or d.name in kc:
+                    return ("int", int(c["v"]), d.name)
             return ("int", int(c["v"]))
         s = c["s"]
         if s.startswith('"'):
@@ -464,6 +467,12 @@ class FnView:
             m = _re.match(r"^_1 = ([A-Za-z_][A-Za-z0-9_:<>]*)(?:\s*\{\s*\})?; _0 = &_1$", pv)
             if m:
                 return ("k", m.group(1))
+            # a constant range `(a..b)` / `(a..=b)` as written in `(a..b).contains(&x)`
+            m = _re.match(r"^_1 = std::ops::Range::<\w+> \{ start: const ([^,]+), end: const ([^ ]+) \}; _0 = &_1$", pv)
+            if m:
+                lo, hi = self._promoted_int(m.group(1)), self._promoted_int(m.group(2))
+                if lo is not None and hi is not None:
+                    return ("ref", ("adt", "std::ops::Range", "Range", (("start", lo), ("end", hi))))
             return ("k", "promoted{" + pv[:200] + "}")
         if d is not None:
             return ("named", d.name)
@@ -471,6 +480,17 @@ class FnView:
         if f is not None:
             return ("fnitem", f.name)
         return ("k", s)
+
+    def _promoted_int(self, txt):
+        """`1_u64` or the path of an integer constant, as it is printed inside a promoted constant"""
+        import re as _re
+        m = _re.match(r"^(-?\d+)(?:_[ui](?:\d+|size))?$", txt)
+        if m:
+            return ("int", int(m.group(1)))
+        for k, (v, ty) in self.prog.consts.items():
+            if self.prog.defs[k].name == txt:
+                return ("int", v, txt)
+        return None
 
     def place_expr(self, pl, depth=0):
         base = self.local_expr(pl.local, depth)
@@ -505,6 +525,11 @@ class FnView:
                 # later mutated through `&mut` (its initialiser alone does not describe it)
                 if self.keep_names or (not self.b.ty(local).startswith(("&", "*")) and self._mut_borrowed_cached(local)):
                     e = ("let", n, e)
+        elif e[0] == "var" and self.keep_names and e[1].startswith("_") and e[1][1:].isdigit():
+            # `let name = <value chosen by a branch>` (e.g. the result of an inlined helper): the user variable is the symbol
+            n = self.b.local_name(local)
+            if n is not None and n not in DESUGAR_NAMES:
+                e = ("var", n)
         self._expr_cache[key] = e
         return e
 
